@@ -4,7 +4,7 @@
    option setting, every input. *)
 From Coq Require Import ZArith NArith List Bool.
 From Lithium Require Import PyBase TcRecord Util Testcase Spec Driver TraceSpec Minimize StratSpec
-  MinimizeBound Pairs PairsBound.
+  MinimizeBound Pairs PairsBound PyLines Markers Splitters Collapse CollapseBound Rewriters RewritersProofs.
 Import ListNotations.
 Open Scope Z_scope.
 
@@ -38,6 +38,50 @@ Theorem C09_pairs :
     n_tests (chron (result_world r)) <= c09_bound (tc_len tc0).
 Proof. exact pairs_bounded. Qed.
 
+(* minimize-collapse-brace in line mode, end to end on a loaded file: the side condition of
+   C09_minimize_like (the re-split never fails and never adds atoms) holds along the whole run
+   because the atoms stay lines *)
+Theorem C09_collapse_line :
+  forall cfg clk verdict d tc0 fuel,
+    load_line d = Ok tc0 -> valid_cfg cfg ->
+    (Z.to_nat (2 * c09_bound (tc_len tc0)) <= fuel)%nat ->
+    let r := Driver.run (collapse_brace cfg clk split_line) verdict fuel tc0 d in
+    (forall w, r <> NoFuel w) /\ (forall e w, r <> Aborted (Some e) w) /\
+    n_tests (chron (result_world r)) <= c09_bound (tc_len tc0).
+Proof. exact collapse_line_bounded. Qed.
+
+(* ---- the rewriting strategies: only their OUTER loops are modelled (Rewriters.v), over an abstract pass.
+   replace-properties: RELATIVE to two interface facts about try_making_globals (a pass yields at most K
+   candidates; an accepted candidate removes at least `maybe_removed` >= 1 bytes) the number of tests is
+   bounded: the chunk size is halved at most log2 c0 + 1 times and a size is repeated only after bytes
+   were removed.  The interface facts are monitored on the implementation, not proved of it: PARTIAL. *)
+Theorem C09_replace_properties_partial :
+  forall PS (pass_start : Z -> tcase -> PS) pass_next cfg verdict tc0 file0 fuel K,
+    (forall c best, pass_le PS pass_next K (pass_start c best)) ->
+    shrinking PS pass_next ->
+    let c0 := r_chunk PS (props_start PS cfg tc0) in
+    let passes := Z.log2 (Z.max 1 c0) + 2 + chars tc0 in
+    (Z.to_nat ((Z.of_nat K + 2) * passes + 4) <= fuel)%nat ->
+    let r := Driver.run (replace_properties PS pass_start pass_next cfg) verdict fuel tc0 file0 in
+    (forall w, r <> NoFuel w) /\ (forall e w, r <> Aborted (Some e) w) /\
+    n_tests (chron (result_world r)) <= 1 + Z.of_nat K * passes.
+Proof. exact replace_properties_bounded. Qed.
+
+(* replace-arguments: the outer loop repeats while a pass accepted something and nothing decreases: with a
+   pass that always offers one (longer) candidate and a test that always answers Yes the number of tests
+   exceeds every bound.  The concrete replay on the implementation is the known finding
+   replace-arguments-unbounded. *)
+Theorem C09_replace_arguments_refuted :
+  exists PS (pass_start : Z -> tcase -> PS) pass_next tc0,
+    forall N : Z, exists fuel,
+      N <= n_tests (chron (result_world
+             (Driver.run (replace_arguments PS pass_start pass_next default_cfg) (fun _ _ => Yes) fuel tc0
+                         (content tc0)))).
+Proof. exact replace_arguments_unbounded. Qed.
+
 Print Assumptions C09_minimize_like.
+Print Assumptions C09_replace_properties_partial.
+Print Assumptions C09_replace_arguments_refuted.
+Print Assumptions C09_collapse_line.
 Print Assumptions C09_pairs.
 Print Assumptions C09_minimize.
